@@ -351,6 +351,27 @@ def rule_dimguard(ctx, py):
                "Units(su_dst,%s)" % selfdim in src)
         ctx.check(okk, R, rets[-1], q, pyfe.src(rets[-1])[:100], "number converted source -> destination with the source "
                   "dimension, re-wrapped (destination system, source dimension)", "conversion arguments or re-wrap wrong")
+    # the method form delegates: every path of UnitValue.convert that returns a quantity goes through the guarded converter
+    # (or has itself compared the two dimensions)
+    f = py.fn("units.UnitValue.convert")
+    rets = []
+
+    class C(pya.PyFacts):
+        def ret(self, s_, cfg):
+            rets.append((s_.src, cfg))
+    from .. import ir
+    ir.Engine(C(), "must").run(ir.py_to_ir(f.body))
+    ctx.need(rets, R, "UnitValue.convert: no return reached")
+    for node, cfg in rets:
+        v_ = node.value
+        deleg = isinstance(v_, ast.Call) and pyfe.call_name(v_).endswith("convert_unitvalue") and v_.args and \
+            pyfe.src(v_.args[0]) == "self"
+        import re as _re
+        guarded = any(pol is True and isinstance(a, str) and _re.search(r"\bdim == .*\bdim\b", a) for a, pol in cfg)
+        ctx.check(deleg or guarded, R, node, f._qual, "return " + pyfe.src(v_)[:50] if v_ is not None else "return",
+                  "through convert_unitvalue(self, ..), which compares the dimensions", "UnitValue.convert returns `%s` on a path "
+                  "that has not compared the target's dimension with the quantity's: a target of another dimension is accepted"
+                  % (pyfe.src(v_)[:40] if v_ is not None else ""))
     ctx.floor(R, 12)
 
 
